@@ -1,9 +1,23 @@
 import Drivers.Wire
 import Model.Pareto
+import Model.ParetoColumn
 
 /-! Driver for C11: `{"op":"nds","pts":[[rat..]..],"order":[..],"mask":[..],"idx":[..]}` etc. -/
 
 open Lean DH.Wire DH.Pareto
+
+/-- a cell of a results table: `["n","num/den"]` a number, `["f"]` a failure marker, `["t"]` anything else -/
+def jCell (j : Json) : Except String Cell := do
+  let a ← j.getArr?
+  match a.toList with
+  | [t] => match (← t.getStr?) with
+    | "f" => return .fail
+    | "t" => return .txt
+    | s => throw s!"bad cell tag {s}"
+  | [t, v] => match (← t.getStr?) with
+    | "n" => return .num (← jRat v)
+    | s => throw s!"bad cell tag {s}"
+  | _ => throw "bad cell"
 
 def handle (j : Json) : Except String Json := do
   let op ← (← field j "op").getStr?
@@ -42,6 +56,17 @@ def handle (j : Json) : Except String Json := do
     let spec := ((fronts ord pts.length (rowsOf pts)).flatten).take req.toNat
     return Json.mkObj [("ok", true), ("model_mask", ofBools m), ("model_idx", ofNats idx),
       ("spec_idx", ofNats spec)]
+  | "column" =>
+    -- header = the column names of the table, rows = its cells, order = what argsort returned inside
+    -- non_dominated_set on the successful rows
+    let header := (← jList jStr (← field j "header")).map String.toList
+    let rows ← jList (jList jCell) (← field j "rows")
+    let order ← jList jNat (← field j "order")
+    let cols := ofNats (objectiveCols header)
+    match paretoColumn header rows order with
+    | .noColumn => return Json.mkObj [("ok", true), ("column", "none"), ("objective_columns", cols)]
+    | .raises => return Json.mkObj [("ok", true), ("column", "raises"), ("objective_columns", cols)]
+    | .column flags => return Json.mkObj [("ok", true), ("column", ofBools flags), ("objective_columns", cols)]
   | _ => throw s!"unknown op {op}"
 
 def main : IO Unit := serveFn handle
